@@ -146,7 +146,7 @@ class _Enc:
     def name(self, name):
         labels = _split(name)
         for i in range(len(labels)):
-            suffix = ".".join(labels[i:]).lower()
+            suffix = ".".join(labels[i:])  # exact spelling: re-cased names must survive
             if self.compress and suffix in self.names and self.names[suffix] < 0x3FFF:
                 off = self.names[suffix]
                 self.buf += struct.pack(">H", 0xC000 | off)
